@@ -118,8 +118,11 @@ Definition metadata_ok (it : intent) (o : V) : bool :=
   (* a trailers-only gRPC response carries its trailers as headers: either place is faithful *)
   head_ok && (trailers_ok || (i_trailers_only it && hdr_subset tr (o_head o))).
 
+(** C03: nothing follows the end of the stream *)
+Definition nothing_after_end (o : V) : bool := vz (vnth 8 o) =? 0.
+
 Definition response_ok (it : intent) (o : V) : bool :=
-  negb (o_panic o) && (o_heads o =? 1) && one_terminal (i_form it) o && status_ct_ok (i_form it) o &&
+  negb (o_panic o) && (o_heads o =? 1) && one_terminal (i_form it) o && nothing_after_end o && status_ct_ok (i_form it) o &&
   content_length_ok (i_form it) o && outcome_ok it o && metadata_ok it o.
 
 (** which conjunct failed, for replay files *)
